@@ -14,9 +14,30 @@ NOTE = (
 
 CHECKS = {
     # id: (design_ref, text, technique-suffix)
-    "C01": ("DESIGN.md 2/C01", "Partition invariance, identity, commutativity and associativity of + decided for all "
-            "symbolic data (and symbolic weights / NaN / inf where stated) of streams n<=2..3 on every catalogue tree; "
-            "each harness is either CONFIRMED over all paths, REFUTED with a replayed counterexample, or reported inconclusive.", ""),
+    "C01": ("DESIGN.md 2/C01", "Partition invariance, identity, commutativity and associativity of + decided for all symbolic data "
+            "(symbolic weights, NaN/inf where stated) of streams n<=2..3 on every catalogue tree.", ""),
+    "C02": ("DESIGN.md 2/C02", "After n<=2..3 symbolic fills the public state of every node equals an independent reference semantics "
+            "(engine/refsem.py) evaluated on the same symbolic values; order independence; non-positive/NaN weights are no-ops.", ""),
+    "C04": ("DESIGN.md 2/C04", "toJson strictness, fromJson(toJson) fixpoint and interchangeability of the reload under +, *, zero, copy, "
+            "for every primitive in every child/flow slot (empty states enumerated, filled/merged states with symbolic data).", ""),
+    "C06": ("DESIGN.md 2/C06", "Operands unchanged by pure operations; results of +, *, zero, copy share no state with operands under "
+            "later symbolic fills and +=; separately constructed instances (defaults, templates) are independent.", ""),
+    "C07": ("DESIGN.md 2/C07", "a += b yields exactly (old a)+b, keeps identity, leaves b unchanged and shares no state afterwards, "
+            "for symbolic streams on every catalogue tree.", ""),
+    "C08": ("DESIGN.md 2/C08", "h*f == f*h == refill with weights*f for symbolic f>0 (exact over the reals); multiplicativity, *1, *2, "
+            "distributivity, JSON commutation, f<=0/NaN gives the empty aggregator, scaled result stays fillable/mergeable/hashable.", ""),
+    "C09": ("DESIGN.md 2/C09", "== holds exactly when the single differing slot (numeric value incl. NaN/inf, key, length, type) is the same "
+            "on both sides; symmetry, != negation, reflexivity, copies and JSON reloads equal; tolerances only widen.", ""),
+    "C10": ("DESIGN.md 2/C10", "+ and += raise for every ordered pair of different primitives and for any differing structural parameter "
+            "(symbolic on both sides) or nested child; rejected merges leave operands unchanged.", ""),
+    "C12": ("DESIGN.md 2/C12", "For single-path trees up to depth 3, symbolic failure selectors (which record fails, at which level, by "
+            "exception or wrong type): state unchanged by the failing call and final state equals that of the surviving records.", ""),
+    "C15": ("DESIGN.md 2/C15", "Every position of every valid unit document replaced by a typed symbolic hole, each key deleted, keys "
+            "added: fromJson raises or returns an aggregator that re-serialises to the mutated document; valid documents accepted.", ""),
+    "C16": ("DESIGN.md 2/C16", "One object installed at two symbolic positions of 9 skeletons is rejected with ContainerException before "
+            "any state change, on first and later fills; trees sharing only never-filled templates are accepted.", ""),
+    "C17": ("DESIGN.md 2/C17", "All application orders of named/cached/serializable give equal wrappers; cached functions return f(args) "
+            "for 3-6 calls with symbolic arguments; 20 string expressions equal their Python functions on symbolic records.", ""),
 }
 
 NA = {
